@@ -371,6 +371,33 @@ if bad:
     print("REPRODUCED"); sys.exit(1)
 sys.exit(0)
 '''
+    if task["fn"] == "t_anc":
+        v = float(model.get("anc_value", 0))
+        return common.REPLAY_HEAD + f'''
+import warnings, nanite.fit as nfit
+from nanite.model import models_available
+pattern = {a["pattern"]!r}; v = {v!r}
+anc = {{"max_indent": 1e-6, "E": (v if pattern != "nan" else np.nan), "unrelated": 3.0}}
+if pattern == "missing-key": anc.pop("E")
+class FD:
+    def __contains__(self, k): return False
+    def get_ancillary_parameters(self): return anc
+defaults = {{k: p.value for k, p in models_available["hertz_para"].get_parameter_defaults().items()}}
+with warnings.catch_warnings():
+    warnings.simplefilter("ignore")
+    P = nfit.guess_initial_parameters(idnt=FD(), model_key="hertz_para")
+bad = []
+for k, p in P.items():
+    want = max(v, 0.0) if (k == "E" and pattern == "value") else defaults[k]
+    if p.value != want: bad.append("%s: %r instead of %r" % (k, p.value, want))
+print("ancillary E =", anc.get("E"), "->", bad)
+if bad:
+    print("REPRODUCED"); sys.exit(1)
+sys.exit(0)
+'''
+    if task["fn"] == "t_history":
+        return None
+    model = {k: v for k, v in model.items() if isinstance(v, bool)}
     return common.REPLAY_HEAD + f'''
 import types, lmfit, warnings
 import nanite.model as nm
